@@ -307,6 +307,16 @@ pub fn run_c08(tier: Tier) -> i32 {
         let starts: Vec<Vec<Op>> = crate::universe::iso_representatives_sparse(5, if thorough { 6 } else { 5 }).into_iter().filter(|g| g.n == 5).map(|g| construction_history(&g, false)).collect();
         plans.push(DynPlan { name: "5 labels: one framework per isomorphism class of 5-argument digraphs with <= 5 [6] attacks, then every sequence of 2 queries, CaDiCaL".into(), kinds: kinds.clone(), n_labels: 5, depth: 2, bad_budget: 0, max_queries: 3, prefixes: starts, backend: Backend::Cadical, only_with_bad: false, queries_only: true, updates_then_query: false });
     }
+    // 6 labels: one framework per isomorphism class of the sparse 6-argument digraphs, then every sequence of 2 queries
+    // (the preferred solver, whose only queries are skeptical, on all classes with <= 8 attacks)
+    {
+        let all6 = crate::universe::iso_classes_augment(6, 8);
+        let starts_pr: Vec<Vec<Op>> = all6.iter().filter(|g| g.att.len() >= 3).map(|g| construction_history(g, false)).collect();
+        plans.push(DynPlan { name: format!("6 labels: one framework per isomorphism class of 6-argument digraphs with 3..8 attacks ({} classes), then every sequence of 2 queries, preferred solver, CaDiCaL", starts_pr.len()), kinds: vec![DynKind::Preferred], n_labels: 6, depth: 2, bad_budget: 0, max_queries: 3, prefixes: starts_pr, backend: Backend::Cadical, only_with_bad: false, queries_only: true, updates_then_query: false });
+        let k = if thorough { 6 } else { 5 };
+        let starts: Vec<Vec<Op>> = all6.iter().filter(|g| g.att.len() >= 3 && g.att.len() <= k).map(|g| construction_history(g, false)).collect();
+        plans.push(DynPlan { name: format!("6 labels: the classes with 3..{} attacks ({}), then every sequence of 2 queries, stable and recompute solvers, CaDiCaL", k, starts.len()), kinds: vec![DynKind::Stable, DynKind::DummyCoPr], n_labels: 6, depth: 2, bad_budget: 0, max_queries: 3, prefixes: starts, backend: Backend::Cadical, only_with_bad: false, queries_only: true, updates_then_query: false });
+    }
     let _ = graphs_note(&[]);
     // scripted long histories (4 labels, up to ~150 updates with every supported query after each)
     {
